@@ -34,7 +34,8 @@ EXPR_KINDS = 'LG'
 #   L: none (U C) | param | pdef | before ((x := T), U, C) | after (U, C, (x := T), U)
 #   G: none | for (target x) | foriter (target x, the iterable contains a use: belongs to the
 #      encloser) | forif (target x, a use in the condition) | before/after (walrus: binds in the
-#      enclosing non-comprehension scope)
+#      enclosing non-comprehension scope) | for2 (x is the target of a second `for`) |
+#      for2iter (target x, a use in the iterable of a second `for`: inside the comprehension)
 CORE = {
     'M': ['none', 'before', 'after'],
     'F': ['none', 'before', 'after', 'gbind', 'nlbind', 'param'],
@@ -48,10 +49,10 @@ FULL = {
           'nldecl', 'pbefore', 'pdef'],
     'C': ['none', 'before', 'after', 'gbind', 'nlbind', 'late', 'both', 'gdecl', 'nldecl'],
     'L': ['none', 'param', 'before', 'after', 'pdef'],
-    'G': ['none', 'for', 'before', 'after', 'foriter', 'forif'],
+    'G': ['none', 'for', 'before', 'after', 'foriter', 'forif', 'for2', 'for2iter'],
 }
 HAS_B = ('before', 'after', 'late', 'both', 'gbind', 'nlbind', 'pbefore')
-FORMS = ['assign', 'import', 'for', 'with', 'except', 'walrus', 'delrebind']
+FORMS = ['assign', 'import', 'for', 'with', 'except', 'walrus', 'delrebind', 'selfref']
 CHILD_KINDS = {'M': 'FCLG', 'F': 'FCLG', 'C': 'FCLG', 'L': 'LG', 'G': 'LG'}
 MODS = ['os', 'sys', 're', 'io', 'abc', 'ast', 'json', 'math', 'time', 'types', 'errno', 'stat',
         'glob', 'copy', 'enum', 'heapq']
@@ -198,6 +199,11 @@ class Render:
             t0, b0 = self.B()
             t, b = self.B()
             return [ind + '%s = %d' % (b0, t0), ind + 'del \x01X\x02x', ind + '%s = %d' % (b, t)], ind
+        if form == 'selfref':     # the right-hand side still sees the previous binding
+            t0, b0 = self.B()
+            use = self.U()
+            t, b = self.B()
+            return [ind + '%s = %d' % (b0, t0), ind + '%s = [%s, %d][1]' % (b, use, t)], ind
         if form == 'for':
             t, b = self.B()
             return [ind + 'for %s in [%d]:' % (b, t)], ind + IND
@@ -343,6 +349,12 @@ class Render:
                 t, b = self.B()
                 it = '[%d]' % t
             target = b
+        elif pat == 'for2':
+            t, b = self.B()
+            target, it = '_', '[0] for %s in [%d]' % (b, t)
+        elif pat == 'for2iter':
+            t, b = self.B()
+            target, it = b, '[%d] for _ in [%s]' % (t, self.U())
         else:
             target, it = '_', '[0]'
         # use/tag numbers only have to be distinct, not in source order
@@ -548,6 +560,27 @@ def tables(text):
     return out
 
 
+def symclass(tabs, path):
+    """How symtable classifies x in the scope at `path` (part of the failure class)."""
+    if not path:
+        return 'module-level'
+    try:
+        s = tabs[path].lookup('x')
+    except KeyError:
+        return 'absent'
+    if s.is_declared_global():
+        return 'declared-global'
+    if s.is_nonlocal():
+        return 'declared-nonlocal'
+    if s.is_global():
+        return 'implicit-global'
+    if s.is_free():
+        return 'free'
+    if s.is_local():
+        return 'local'
+    return 'unknown'
+
+
 def owner(tabs, path):
     """Scope path that `symtable` says identifier x resolves to from the scope at `path`
     (None: builtins / unbound)."""
@@ -720,7 +753,9 @@ def analyse(shape, style):
                    and bypos[q]['top'] for q in mine):
                 exact = tagpos[tags[0]]
         uses.append({'k': k, 'pos': pos, 'executed': True, 'tags': tags,
-                     'path': o['path'], 'static_owner': st_owner, 'runtime_owner': rt_owner,
+                     'path': o['path'], 'static_owner': st_owner,
+                     'symclass': symclass(tabs, o['path']) + ('-unbound-falls-through' if fall
+                                                              else ''), 'runtime_owner': rt_owner,
                      'fallthrough': fall, 'accepted': accepted, 'exact': exact})
     sites = []
     for o in occ:
